@@ -4,6 +4,7 @@ import NutsModel.C17.Framing
 import NutsModel.C17.Fold
 import NutsModel.C17.Kid
 import NutsModel.C17.LdBytes
+import NutsModel.C17.Jwk
 import NutsModel.Facts.C17
 open Lean Nuts.Drv Nuts.C17 Nuts
 
@@ -31,6 +32,10 @@ def parseClaims (j : Json) : C04.Claims :=
     iss := optStr j "iss", sub := optStr j "sub" }
 
 def nth (l : List Bool) (i : Nat) : Bool := (l[i]?).getD false
+
+/-- the embedded JWK object of a `dpopj` / `dagtxj` op: what decides the jwx key type -/
+def jwkObj (v : Json) : Option Jwk.JwkObj :=
+  if jHas v "jkty" then some { kty := jStr v "jkty", crv := jStr v "jcrv", hasD := jBool v "jhasd" } else none
 
 def showOutcome : Outcome → String
   | .accept _ => "accept"
@@ -165,6 +170,16 @@ def step (st : Unit) (j : Json) : Unit × List String :=
                        verifies := fun _ _ i => i == 0 && jBool v "verifiedlib"
                        verifiesSplit := fun _ _ i => nth ver i }
       parseJWS Facts.C17.supportedAlgs Facts.C17.parseJWSCountRule Facts.C17.parseJWSVerifyMode E info
+    | "dpopj" =>
+      let E : Env := { fits := fun _ _ => jBool v "fits", resolve := fun _ => none, embeddedKey := fun _ => some "E",
+                       verifies := fun _ _ _ => jBool v "verified", verifiesSplit := fun _ _ _ => false }
+      Jwk.dpopParseJ Facts.C17.supportedAlgs Facts.C17.dpopTyp Facts.C17.dpopPrivateProbes Facts.C17.dpopPrivateProbeDefault E (jBool v "claimsok") info (jwkObj v)
+    | "dagtxj" =>
+      let kf := jBool v "keyfound"
+      let E : Env := { resolve := fun _ => if kf then some "K" else none, embeddedKey := fun _ => if kf then some "E" else none,
+                       verifies := fun _ _ _ => jBool v "verified", verifiesSplit := fun _ _ _ => false,
+                       fits := fun _ _ => jBool v "fits" }
+      Jwk.dagTxJ Facts.C17.dagAllowedAlgs Facts.C17.parseSignatureParamsRejectedKeyTypes Facts.C17.dagStrictFraming E (jBool v "otherok") (jBool v "framing") info (jwkObj v)
     | "dpop" =>
       -- when dpop.Parse itself tests jwx.AlgorithmFitsKey (regenerated fact) the fit is part of "verified"
       let E : Env := { fits := fun _ _ => jBool v "fits", resolve := fun _ => none, embeddedKey := fun _ => some "E",
@@ -186,6 +201,18 @@ def step (st : Unit) (j : Json) : Unit × List String :=
           verifies := jBools v "verifies", claims := parseClaims (jObj v "claims") }
       apiToken Facts.C17.apiPolicy (jStr v "aud") ((jStrs v "keys").map (fun c => { comment := c })) (jInt v "now") hdr a
     | _ => .reject
+  let c := jStr j "c"
+  if c == "dpopj" || c == "dagtxj" then
+    let test := match jwkObj v with
+      | none => "absent"
+      | some o => match Jwk.typeOf o with
+        | none => "noparse"
+        | some t =>
+          let priv := if c == "dpopj" then Jwk.jwkIsPrivateKey Facts.C17.dpopPrivateProbes Facts.C17.dpopPrivateProbeDefault t o.crv
+                      else Jwk.dagRefusesJwk Facts.C17.parseSignatureParamsRejectedKeyTypes t
+          if priv then "refused" else "passed"
+    (st, [test ++ " " ++ showOutcome out])
+  else
   (st, [showOutcome out])
 
 end Nuts.Drv.C17
